@@ -298,6 +298,21 @@ func (fx *fnExec) applyContract(st *state, in ssa.Instruction, ct *Contract, inf
 			fx.havocLoc(st, l, in)
 		}
 	}
+	for _, le := range ct.Locks {
+		v := cpre.eval(le)
+		if v.typ != nil {
+			if pt, ok := v.typ.Underlying().(*types.Pointer); ok && structOf(pt.Elem()) != nil {
+				for i := 0; i < structOf(pt.Elem()).NumFields(); i++ {
+					if structOf(pt.Elem()).Field(i).Type().String() == "sync.Mutex" {
+						fx.havocLockProtected(st, &addr{kind: aField, ref: v.term, st: pt.Elem(), field: i})
+					}
+				}
+			}
+		}
+		if len(fx.ct.Locks) == 0 && fx.ct.Role != "init" {
+			fx.addObl("assigns", "locks-declared", fx.allProps(), "false", in.Pos(), "callee may acquire a mutex but this function's contract has no `locks` clause")
+		}
+	}
 	// allocation
 	if !ct.Opaque || ct.Allocates {
 		na := fx.fresh("alloc", "Int")
@@ -353,6 +368,12 @@ func (fx *fnExec) applyContract(st *state, in ssa.Instruction, ct *Contract, inf
 	for _, e := range ct.Ensures {
 		v := cpost.eval(e.Expr)
 		fx.assume(v.term)
+	}
+	if info.key == "::(*sync.Mutex).Lock" && len(args) > 0 && args[0].addr != nil && args[0].addr.kind == aField {
+		fx.havocLockProtected(st, args[0].addr)
+		if len(fx.ct.Locks) == 0 {
+			fx.addObl("assigns", "locks-declared", fx.allProps(), "false", in.Pos(), "function acquires a mutex but its contract has no `locks` clause")
+		}
 	}
 	for _, pi := range fx.pendingInv {
 		// results of calls: the callee proved the invariant at its return (implicit postcondition)
@@ -837,5 +858,30 @@ func (fx *fnExec) applyJoins(st *state, in ssa.Instruction, recv val) {
 			fx.assume(v.term)
 			fx.assumptionsUsed["a buffered channel with a single sender delivers the value that was sent (join clauses)"] = true
 		}
+	}
+}
+
+// havocLockProtected: acquiring the mutex of an object gives arbitrary (well-typed) values to the fields
+// declared `locked`: other goroutines may have changed them whenever this goroutine did not hold the lock.
+func (fx *fnExec) havocLockProtected(st *state, m *addr) {
+	n := namedOf(m.st)
+	if n == nil || n.Obj().Pkg() == nil {
+		return
+	}
+	stt := structOf(m.st)
+	for _, fp := range fx.g.cs.FieldProto {
+		if fp.Rule != "locked" || fp.Type != n.Obj().Name() || fp.Pkg != n.Obj().Pkg().Path() {
+			continue
+		}
+		if strings.HasPrefix(m.ref, "new!") {
+			continue // object not yet shared
+		}
+		i := fieldIndex(stt, fp.Field)
+		arr, srt := fx.fieldArr(m.st, i)
+		h := fx.heapGet(st, arr, srt)
+		nv := fx.fresh("lk!"+fp.Field, fx.d.SortOf(stt.Field(i).Type()))
+		fx.assume(fx.wellTyped(nv, stt.Field(i).Type(), st.alloc))
+		fx.heapSet(st, arr, srt, "(store "+h+" "+m.ref+" "+nv+")")
+		fx.assumptionsUsed["fields declared `locked` are havocked at every Lock() of their object (other goroutines may change them while the lock is not held); all other state is treated sequentially"] = true
 	}
 }
